@@ -4,6 +4,7 @@ import (
 	"fmt"
 	"go/token"
 	"go/types"
+	"strings"
 
 	"golang.org/x/tools/go/ssa"
 )
@@ -227,6 +228,22 @@ func cmpDec(a, b string) int {
 
 // bytesOf returns the Bytes view of a byte slice in state st.
 func (u *Unit) bytesOf(st *State, s Term) Term {
+	return u.bytesOfBound(st, s, nil)
+}
+
+// bytesOfBound: as bytesOf, for a slice term that mentions the quantified variables `bound` of a specification.
+func (u *Unit) bytesOfBound(st *State, s Term, bound []Term) Term {
 	E := u.comp(st, ecomp(SInt))
-	return App(SBytes, "view", Select(E, SArr(s)), SOff(s), SLen(s))
+	v := App(SBytes, "view", Select(E, SArr(s)), SOff(s), SLen(s))
+	// the elements of a []byte are bytes (type invariant of the slice's elements)
+	q := Term{"qb!", SInt}
+	b := App(SInt, "bat", v, q)
+	vars := []Term{q}
+	for _, bv := range bound {
+		if strings.Contains(s.S, bv.S) {
+			vars = append(vars, bv)
+		}
+	}
+	u.assume(True, Forall(vars, Implies(And(Le(IntLit(0), q), Lt(q, SLen(s))), And(Le(IntLit(0), b), Le(b, IntLit(255)))), []Term{b}))
+	return v
 }
